@@ -42,9 +42,32 @@ func (valdec listDecoder) Decode(dec *Decoder, p interface{}, tag byte) {
 			l.PushBack(e)
 		}
 		dec.Skip()
+	case TagRef:
+		// the same list may have been decoded before as a list of another Go
+		// type (through an interface{}: a slice)
+		switch o := dec.readReferred().(type) {
+		case *list.List:
+			*plist = o
+		case *[]interface{}:
+			*plist = listOf(*o)
+		case []interface{}:
+			*plist = listOf(o)
+		default:
+			if o != nil || dec.Error == nil {
+				dec.convertReference(o, p)
+			}
+		}
 	default:
 		dec.defaultDecode(listType, p, tag)
 	}
+}
+
+func listOf(elements []interface{}) *list.List {
+	l := list.New()
+	for _, e := range elements {
+		l.PushBack(e)
+	}
+	return l
 }
 
 func init() {
